@@ -488,6 +488,17 @@ func c09Caps(r *gen.Rand, total int, bounds []int, kind int) []int {
 const c09NoTimeout = 20000 // ms; never fires in cases without a stall
 
 func runC09(c *gen.Ctx) error {
+	// real pipes, real time-outs, child processes: beside everything else (own generator state)
+	var bg sync.WaitGroup
+	bgCtx := *c
+	bgCtx.R = c.R.Fork()
+	bg.Add(1)
+	go func() {
+		defer bg.Done()
+		c09PipeGen(&bgCtx)
+		c09SiteGen(&bgCtx)
+	}()
+	defer bg.Wait()
 	r := c.R
 	e := c.E
 	// ---- (A) every cap list (composition) x every truncation offset x both EOF styles,
@@ -776,6 +787,5 @@ func runC09(c *gen.Ctx) error {
 		}
 	}
 	c09PeerGen(c)
-	c09SiteGen(c)
 	return nil
 }
